@@ -1006,6 +1006,18 @@ func (c *Ctx) specCall(x *SCall) *Val {
 			var conj []Term
 			for _, p := range ea {
 				for _, q := range eb {
+					// identifiers index heap arrays: two entries can interfere only if they share one
+					share := false
+					for _, h1 := range p.heaps {
+						for _, h2 := range q.heaps {
+							if h1.name == h2.name {
+								share = true
+							}
+						}
+					}
+					if !share {
+						continue
+					}
 					vars := append(append([]Term{}, p.qvars...), q.qvars...)
 					conj = append(conj, Forall(vars, Implies(And(p.guard, q.guard), Or(Not(Eq(p.id, q.id)), Eq(p.id, IntLit(0))))))
 				}
